@@ -63,6 +63,13 @@ pub enum Platform {
 impl Platform {
     #[allow(unreachable_code)]
     pub fn detect() -> Self {
+        #[cfg(blake3_team_blake3_verif)]
+        {
+            if let Some(platform) = crate::verif_hooks::detect_override() {
+                return platform;
+            }
+        }
+
         #[cfg(miri)]
         {
             return Platform::Portable;
@@ -128,6 +135,8 @@ impl Platform {
         counter: u64,
         flags: u8,
     ) {
+        #[cfg(blake3_team_blake3_verif)]
+        crate::verif_hooks::kernel_entry(crate::verif_hooks::KernelCall::CompressInPlace);
         match self {
             Platform::Portable => portable::compress_in_place(cv, block, block_len, counter, flags),
             // Safe because detect() checked for platform support.
@@ -164,6 +173,8 @@ impl Platform {
         counter: u64,
         flags: u8,
     ) -> [u8; 64] {
+        #[cfg(blake3_team_blake3_verif)]
+        crate::verif_hooks::kernel_entry(crate::verif_hooks::KernelCall::CompressXof);
         match self {
             Platform::Portable => portable::compress_xof(cv, block, block_len, counter, flags),
             // Safe because detect() checked for platform support.
@@ -213,6 +224,8 @@ impl Platform {
         flags_end: u8,
         out: &mut [u8],
     ) {
+        #[cfg(blake3_team_blake3_verif)]
+        crate::verif_hooks::kernel_entry(crate::verif_hooks::KernelCall::HashMany);
         match self {
             Platform::Portable => portable::hash_many(
                 inputs,
@@ -326,6 +339,8 @@ impl Platform {
             // The current assembly implementation always outputs at least 1 block.
             return;
         }
+        #[cfg(blake3_team_blake3_verif)]
+        crate::verif_hooks::kernel_entry(crate::verif_hooks::KernelCall::XofMany);
         match self {
             // Safe because detect() checked for platform support.
             #[cfg(blake3_avx512_ffi)]
